@@ -15,12 +15,42 @@ from ..pools import Pools
 from .common import ref_api, file_of, strip_ansi, tree_files, norm_rel
 
 CLASSES = ["clean", "notice", "erroneous", "fatal"]
+
+
+def path_args(argv):
+    """The positional (path) arguments of an argv built by this engine."""
+    out = []
+    skip = False
+    for a in argv:
+        if skip:
+            skip = False
+            continue
+        if a == "-f":
+            skip = True
+            continue
+        if a.startswith("-"):
+            continue
+        out.append(a)
+    return out
 VERDICT_RE = re.compile(r"^(?P<name>[^\n]+?): (?P<v>OK|Error)!$")
 
 
 def parse_stdout(out):
-    """[(name, verdict, fatal_msg|None)] from the human-readable stdout."""
-    lines = strip_ansi(out).split("\n")
+    """[(name, verdict, fatal_msg|None)] from stdout: the human-readable report, or (under -f json) the human fatal
+    lines followed by the JSON document."""
+    text = strip_ansi(out)
+    k = text.find('{"files":')
+    if k >= 0 and (k == 0 or text[k - 1] == "\n"):
+        import json
+        res = parse_stdout(text[:k]) if k else []
+        try:
+            doc = json.loads(text[k:])
+            for jf in doc["files"]:
+                res.append((str(jf["path"]).rsplit("/", 1)[-1], jf["status"], None))
+        except Exception:  # noqa - an unparsable document simply yields no verdicts (reported as missing verdict lines)
+            pass
+        return res
+    lines = text.split("\n")
     res = []
     i = 0
     while i < len(lines):
@@ -108,8 +138,13 @@ class C04(Engine):
         else:
             op["cwd"] = "src"
             op["glob_perms"] = [rng.randrange(1 << 30) if rng.random() < 0.8 else None]
-        if rng.random() < 0.3:
+        k = rng.random()
+        if k < 0.3:
             op["argv"] = ["--no-colors"] + op["argv"]
+        elif k < 0.45:
+            op["argv"] = ["-f", "json"] + op["argv"]
+        elif k < 0.5:
+            op["argv"] = ["-o"] + op["argv"]
         sc = {"kind": "run", "mode": mode, "seq": list(seq), "tree": tree, "selected": list(zip(paths, fids)), "ops": [op]}
         if io_fault:
             kind, call = io_fault
@@ -206,7 +241,7 @@ class C04(Engine):
         cwd = sc["ops"][0].get("cwd", ".")
         mode = sc["mode"]
         if mode == "explicit":
-            argv = [a for a in sc["ops"][0]["argv"] if not a.startswith("-")]
+            argv = path_args(sc["ops"][0]["argv"])
             sel = [(a, tf[norm_rel(a, cwd)]) for a in argv if norm_rel(a, cwd) in tf]
             if len(sel) != len(argv):
                 return []          # a path argument no longer exists: outside M-run (C15's matter)
@@ -365,11 +400,26 @@ class C04(Engine):
         # drop one selected file (explicit: drop the argument; directory modes: delete the tree entry)
         op = sc["ops"][0]
         if sc["mode"] == "explicit":
-            args = [a for a in op["argv"] if not a.startswith("-")]
-            for j in range(len(args)):
+            pa = path_args(op["argv"])
+            for j in range(len(pa)):
                 c = copy.deepcopy(sc)
-                k = [i for i, a in enumerate(c["ops"][0]["argv"]) if not a.startswith("-")][j]
-                del c["ops"][0]["argv"][k]
+                # delete the j-th positional argument
+                seen = -1
+                argv = c["ops"][0]["argv"]
+                skip = False
+                for i, a in enumerate(argv):
+                    if skip:
+                        skip = False
+                        continue
+                    if a == "-f":
+                        skip = True
+                        continue
+                    if a.startswith("-"):
+                        continue
+                    seen += 1
+                    if seen == j:
+                        del argv[i]
+                        break
                 yield c
         else:
             for p, fid in tree_files(sc["tree"]):
@@ -385,7 +435,11 @@ class C04(Engine):
             c["ops"][0]["glob_perms"] = None
             yield c
         for j, a in enumerate(op["argv"]):
-            if a.startswith("-"):
+            if a in ("--no-colors", "-o"):
                 c = copy.deepcopy(sc)
                 del c["ops"][0]["argv"][j]
+                yield c
+            elif a == "-f":
+                c = copy.deepcopy(sc)
+                del c["ops"][0]["argv"][j:j + 2]
                 yield c
